@@ -5,6 +5,7 @@
 -/
 import BtcVerif.Model.ScriptEval
 import BtcVerif.Spec.Templates
+import BtcVerif.Model.SpendCtx
 
 namespace BtcVerif.C05T
 open BtcVerif BtcVerif.Spec BtcVerif.Spec.Script BtcVerif.Model.Script BtcVerif.Model.ScriptEval
@@ -1528,8 +1529,19 @@ theorem greedy_all_false {chk : Bytes → Bytes → Bool} : ∀ (ks ss : List By
       simp only [greedy, h s List.mem_cons_self k, Bool.false_eq_true, if_false]
       exact ih (s :: ss) hne h
 
-/-- the interpreter context of input `i` of `tx` (what `VerifyScript(…, txTo, inIdx)` evaluates in) -/
-def txCtx (hashes : Hashes) (ecdsa : Bytes → Bytes → Bytes → Bool) (tx : Tx) (i : Nat) : Ctx :=
-  { env := txEnv hashes ecdsa tx i, inIdx := i, nVin := tx.vin.length, nVout := tx.vout.length }
+theorem greedy_all_false_mem {chk : Bytes → Bytes → Bool} : ∀ (ks ss : List Bytes), ss ≠ [] →
+    (∀ s ∈ ss, ∀ k ∈ ks, chk s k = false) → greedy chk ss ks = false := by
+  intro ks
+  induction ks with
+  | nil => intro ss hne _; cases ss with
+    | nil => exact absurd rfl hne
+    | cons s ss => rfl
+  | cons k ks ih =>
+    intro ss hne h
+    cases ss with
+    | nil => exact absurd rfl hne
+    | cons s ss =>
+      simp only [greedy, h s List.mem_cons_self k List.mem_cons_self, Bool.false_eq_true, if_false]
+      exact ih (s :: ss) hne (fun s' hs' k' hk' => h s' hs' k' (List.mem_cons_of_mem _ hk'))
 
 end BtcVerif.C05T
